@@ -115,14 +115,20 @@ def famC02 (level : Nat) : List Item :=
     let ds := fewRegs (enumEnc f en)
     items {} ds ++ (if rep || level ≥ 1 then items { scaleFirst := true, kwAlways := true, num := .dec } ds else [])
 
+/-- a wider register selection for immediates: accumulator, rcx, the stack/frame pointers and their extended twins, r10, r15, ch -/
+def someRegs (ds : List Dec) : List Dec :=
+  ds.filter fun d => d.ops.all fun o => match o with
+    | .reg r => [0, 1, 4, 5, 10, 12, 13, 15].contains r.num || (r.file == .mm && r.num == 6) || (r.file == .gpr8h && r.num == 5)
+    | _ => true
+
 /-- C03: every entry with an immediate over the boundary values, register and memory destinations -/
 def famC03 (thorough : Bool) : List Item :=
   (table.filter fun en => hasImm en).flatMap fun en =>
     let f : Fill := { mems := memsFew, imms := immValues, rels8 := [], rels32 := [], regForm := true, memForm := true }
     let ds := enumEnc f en
-    let ds := if thorough then ds else fewRegs ds
+    let ds := if thorough then ds else someRegs ds
     items {} ds ++ items { num := .dec } ds ++ items { negImm := false } ds ++
-    (if thorough then items { num := .hexPad 16, negImm := false } ds else [])
+    items { num := .hexPad 16, negImm := false } (if thorough then ds else fewRegs ds)
 
 def relValues32 : List Int :=
   [-129, -128, -127, -1, 0, 1, 2, 126, 127, 128, 129, 255, 256, 0x7fff, 0x8000, -0x8000, -0x8001, 0x12345678, -0x12345678,
